@@ -115,6 +115,16 @@ func (listener *tcpLineListener) run() {
 			break
 		}
 
+		if listener.stopRequest.Peek() {
+			// Connections being closed on stop request release their FDs before their sinks are closed; a connection
+			// accepted now could be given one of those FDs as client number while the old sink is still in place.
+			listener.logger.Info("rejected new connection: stopping")
+			if err := newConn.Close(); err != nil {
+				listener.logger.Warn("error closing connection: ", err)
+			}
+			continue
+		}
+
 		newClientNumber := base.ClientNumber(util.GetFDFromTCPConnOrPanic(newConn))
 		newConnLogger := listener.logger.WithFields(logger.Fields{
 			defs.LabelPart:         "connection",
@@ -144,9 +154,14 @@ func (listener *tcpLineListener) runConnection(connLogger logger.Logger, conn *n
 	connLogger.Info("started")
 
 	recvChan := listener.receiver.NewSink(conn.RemoteAddr().String(), clientNumber)
-	defer recvChan.Close()
 
 	connAborter := listener.launchConnectionCloser(connLogger, conn)
+
+	// The client number is the FD of the connection and must stay unique among open sinks: close the connection
+	// (by signaling connAborter) only after the sink has been closed, otherwise a new connection can be given the
+	// same FD while the old sink is still in place. Deferred calls run in reverse order.
+	defer connAborter.Signal()
+	defer recvChan.Close()
 
 	// short timeout for periodic flushing
 	connReader := listener.createConnectionReader(connLogger, conn)
@@ -187,7 +202,7 @@ func (listener *tcpLineListener) runConnection(connLogger logger.Logger, conn *n
 			if !util.IsNetworkClosed(readErr) {
 				connLogger.Warn("read() error: ", readErr)
 			}
-			connAborter.Signal()
+			// the connection is closed by connAborter after the final flush and sink.Close(), see above
 		}
 		break
 	}
